@@ -106,7 +106,7 @@ def run_unit(unit_tpl, mode, workdir, modules=None, rlimit=None, seed=None, tag=
     if rlimit:
         cmd += ['--rlimit', str(rlimit)]
     if seed is not None:
-        cmd += ['-V', 'smt-option=smt.random_seed=%d' % seed]
+        cmd += ['--smt-option', 'smt.random_seed=%d' % seed]
     res.cmd = ' '.join(cmd)
     t0 = time.time()
     p = subprocess.run(cmd, stdout=subprocess.PIPE, stderr=subprocess.PIPE, text=True, cwd=workdir)
@@ -201,3 +201,43 @@ def run_unit(unit_tpl, mode, workdir, modules=None, rlimit=None, seed=None, tag=
     if res.errors and not res.failures:
         res.tool_error = 'verus reported %d errors but no diagnostics were parsed' % res.errors
     return res
+
+
+def axiom_canary(res, workdir):
+    """Vacuity guard: a proof of `false` that may use EVERY admitted broadcast axiom of the generated unit must be REJECTED.
+    Returns (ok, detail): ok is False when Verus accepts the canary (the assumed axioms are inconsistent, so every proof is void)."""
+    from . import rustscan as rs
+    text = res.g.text()
+    mask = rs.code_mask(text)
+    mods = []
+    for mm in rs.find_code(text, mask, r'(?m)^pub mod (\w+) \{'):
+        ob = mm.end() - 1
+        mods.append((mm.group(1), ob, rs.match_close(text, mask, ob)))
+    axioms = []
+    for mm in re.finditer(r'pub broadcast proof fn (\w+)', text):
+        j = text.find('{', mm.end())
+        k = text.find('\n', j)
+        body = text[j:k if k > 0 else None]
+        if 'admit()' not in text[mm.end():text.find('}', j) + 1]:
+            continue
+        owner = [m for m in mods if m[1] < mm.start() < m[2]]
+        if owner:
+            axioms.append('%s::%s' % (owner[0][0], mm.group(1)))
+    if not axioms:
+        return True, 'no admitted broadcast axioms'
+    canary = '\npub mod zz_canary {\nuse super::*;\nproof fn canary_assumed_axioms_are_consistent() ensures false {\n    broadcast use {%s};\n}\n}\n' % ', '.join(axioms)
+    i = text.rindex('} // verus!')
+    path = res.gen_path.replace('.rs', '_canary.rs')
+    with open(path, 'w') as f:
+        f.write(text[:i] + canary + text[i:])
+    p = subprocess.run([VERUS, path, '--verify-only-module', 'zz_canary', '--output-json'], stdout=subprocess.PIPE, stderr=subprocess.PIPE, text=True, cwd=workdir)
+    try:
+        summary = json.loads(p.stdout[p.stdout.find('{'):])
+        vr = summary['verification-results']
+    except Exception:
+        return None, 'canary run produced no summary: ' + p.stderr[-300:]
+    if vr.get('errors', 0) >= 1 and 'postcondition not satisfied' in p.stderr:
+        return True, 'canary `ensures false` with %d admitted axioms in scope was rejected, as it must be' % len(axioms)
+    if vr.get('errors', 0) == 0 and vr.get('verified', 0) >= 1:
+        return False, 'canary `ensures false` VERIFIED with axioms %s' % axioms
+    return None, 'canary run inconclusive: ' + p.stderr[-300:]
